@@ -15,6 +15,7 @@ type fact struct {
 	val      bool
 	killObj  types.Object // tombstone: facts mentioning this object are void
 	killShrd bool         // tombstone: facts mentioning a field or shared local are void
+	store    bool         // the fact comes from an assignment on the path (not from a branch decision)
 }
 
 type keyInfo struct {
@@ -25,29 +26,35 @@ type keyInfo struct {
 }
 
 func (f *fact) lookup(ki keyInfo) (bool, bool) {
+	v, ok, _ := f.lookupSrc(ki)
+	return v, ok
+}
+
+// lookupSrc is lookup that also reports whether the fact came from an assignment on the path.
+func (f *fact) lookupSrc(ki keyInfo) (bool, bool, bool) {
 	if !ki.pure {
-		return false, false
+		return false, false, false
 	}
 	for ; f != nil; f = f.prev {
 		if f.killShrd {
 			if ki.shared {
-				return false, false
+				return false, false, false
 			}
 			continue
 		}
 		if f.killObj != nil {
 			for _, m := range ki.mentions {
 				if m == f.killObj {
-					return false, false
+					return false, false, false
 				}
 			}
 			continue
 		}
 		if f.key == ki.key {
-			return f.val, true
+			return f.val, true, f.store
 		}
 	}
-	return false, false
+	return false, false, false
 }
 
 func unparen(e ast.Expr) ast.Expr {
@@ -245,4 +252,11 @@ func (w *walker) setFact(st *state, ki keyInfo, val bool) {
 		return
 	}
 	st.facts = &fact{prev: st.facts, key: ki.key, val: val}
+}
+
+func (w *walker) setStoreFact(st *state, ki keyInfo, val bool) {
+	w.setFact(st, ki, val)
+	if st.facts != nil && st.facts.key == ki.key {
+		st.facts.store = true
+	}
 }
